@@ -111,9 +111,10 @@ def check_tadd(P, R, tu):
     others = 0
     for p in paths:
         r = p.ret
-        if not isinstance(r, dict) or "carry" not in r:
+        if not isinstance(r, dict):
             raise AnalysisBroken("%s: dt_tadd_s does not return the time with its carry" % rule)
-        after = r["carry"] * day + r.get("hms.h", h0) * Poly.const(3600) + r.get("hms.m", m0) * Poly.const(60) + r.get("hms.s", s0)
+        # a path that hands the argument back leaves what the caller had in the carry slot
+        after = r.get("carry", inp((t, "carry"))) * day + r.get("hms.h", h0) * Poly.const(3600) + r.get("hms.m", m0) * Poly.const(60) + r.get("hms.s", s0)
         diff = after - before
         if not diff:
             good += 1
@@ -140,6 +141,10 @@ def check_tadd(P, R, tu):
                         okc = True
     if others <= 1 and okc:
         R.ob(rule, "dt_tadd_s: the leap-second-day path is taken only for a remainder >= 86400 (corr > 0)", True)
+    elif okc and good >= 1:
+        # more exits than the one regular and the one leap-day path (a short-cut, say): whether each of them is right is a matter
+        # of the values on it, which RF2-time decides by folding dt_dtadd (single additions and two in a row); no verdict here
+        R.notes.append("%s: %d exits of dt_tadd_s besides the regular one were not matched against the identity (decided by RF2-time)" % (rule, others))
     else:
         R.finding(rule, fn, "irregular path", "%d paths of dt_tadd_s do not conserve the seconds and are not confined to remainders >= 86400"
                   % others)
